@@ -212,6 +212,20 @@ pub fn generate(ctx: &mut GenCtx) {
             }
         }
     }
+    // blank nodes used as GRAPH NAMES related to nodes with a shared first-degree hash (position g in Hash Related)
+    for k in 2..=(if th { 4 } else { 3 }) {
+        for variant in 0..=4 {
+            let base = blank_graph_ties(k, variant);
+            ctx.stats.bump("shape.blank_graph_tie");
+            emit_variants(ctx, "blank_graph_ties", &base, var_n + 1);
+            // several predicates / IRIs so that the hash order of the tied nodes is not always the same
+            for alt in ["x:p1", "x:p2", "http://example.com/#p"] {
+                let f = |t: &T| if *t == iri(P0) { iri(alt) } else { t.clone() };
+                let v: Vec<Q> = base.iter().map(|q| Q { s: q.s.clone(), p: f(&q.p), o: q.o.clone(), g: q.g.clone() }).collect();
+                emit_variants(ctx, "blank_graph_ties", &v, 1);
+            }
+        }
+    }
     // blank nodes told apart only by WHICH IRI-named graph links them to which neighbour (finding
     // C05-rdfc10-ambiguous-tie: RDFC-1.0 itself does not determine the output there)
     {
